@@ -561,10 +561,15 @@ func (p *Parser) evaluateBuiltInFunction(tokenType lexer.TokenType, keyword stri
 	// Evaluate arguments if it's a print call with arguments.
 	if nextToken.Type() != lexer.CLOSING_ROUND_BRACKET {
 		for {
+			exprToken := p.peek()
 			expr, err := p.evaluateExpression(ctx)
 
 			if err != nil {
 				return nil, err
+			}
+
+			if expr.ValueType().DataType() == DATA_TYPE_UNKNOWN {
+				return nil, p.expectedError("value", exprToken)
 			}
 			expressions = append(expressions, expr)
 			nextToken = p.peek()
@@ -2360,6 +2365,10 @@ func (p *Parser) evaluateArguments(typeName string, name string, params []Variab
 			return nil, err
 		}
 		args = append(args, expr)
+
+		if expr.ValueType().DataType() == DATA_TYPE_UNKNOWN {
+			return nil, p.expectedError("value", argToken)
+		}
 
 		if !ignoreParams {
 			argsLength := len(args)
